@@ -358,4 +358,61 @@ ExecC(s, st) ==
       [] OTHER -> Unspec(st, "stmt:" \o k)
 
 RunC(body, st) == ExecList(body, 1, st)
+
+----------------------------------------------------------------------------
+(* The supported dialect (C01: "behaviours that stay within the supported   *)
+(* dialect are accepted").  InDialect(body, st) holds iff every construct   *)
+(* of the tree is one this module gives a meaning to AND is documented as   *)
+(* supported: fixed-width integer types, int / unsigned, the operators of   *)
+(* C02, if/else, for, declarations, loads/stores, JUMP, calls of registered *)
+(* sub-routines and of the bit-field helpers.  while/do/switch/break/...    *)
+(* have a meaning here (C15 uses it) but are outside the supported dialect. *)
+TypeNames == {"int8_t", "uint8_t", "int16_t", "uint16_t", "int32_t", "uint32_t", "int64_t", "uint64_t",
+              "size1s_t", "size1u_t", "size2s_t", "size2u_t", "size4s_t", "size4u_t", "size8s_t", "size8u_t",
+              "int", "unsigned", "unsigned int"}
+TypeOk(t) == t.name \in TypeNames /\ t.w \in {8, 16, 32, 64} /\ "ptr" \notin DOMAIN t /\ "nonint" \notin DOMAIN t
+KnownCalls(st) == BitMacros \cup DOMAIN st.csubs \cup {"REGFIELD", "get_corresponding_CS", "get_npc", "fatal", "STORE_SLOT_CANCELLED"}
+UnOpsOk == {"-", "~", "!", "+"}
+BinOpsOk == {"+", "-", "*", "/", "%", "&", "|", "^", "<<", ">>", "<", ">", "<=", ">=", "==", "!=", "&&", "||"}
+AssignOpsOk == {"=", "+=", "-=", "*=", "/=", "%=", "&=", "|=", "^=", "<<=", ">>="}
+
+RECURSIVE ExprOk(_, _)
+RECURSIVE StmtOk(_, _)
+AllExprOk(es, st) == \A i \in 1..Len(es) : ExprOk(es[i], st)
+AllStmtOk(ss, st) == \A i \in 1..Len(ss) : StmtOk(ss[i], st)
+IsLvalue(e) == e.k \in {"var", "reg"}
+
+ExprOk(e, st) ==
+    LET k == e.k IN
+    CASE k = "num" -> e.suffix \in {"", "U", "LL", "ULL"}
+      [] k = "var" -> TRUE
+      [] k = "reg" -> e.kind \in {"isa", "explicit", "alias"}
+      [] k = "imm" -> TRUE
+      [] k = "un" -> e.o \in UnOpsOk /\ ExprOk(e.a, st)
+      [] k = "bin" -> e.o \in BinOpsOk /\ ExprOk(e.a, st) /\ ExprOk(e.b, st)
+      [] k = "cond" -> ExprOk(e.c, st) /\ ExprOk(e.a, st) /\ ExprOk(e.b, st)
+      [] k = "cast" -> TypeOk(e.t) /\ ExprOk(e.a, st)
+      [] k = "assign" -> e.o \in AssignOpsOk /\ IsLvalue(e.l) /\ ExprOk(e.l, st) /\ ExprOk(e.r, st)
+      [] k = "postfix" -> e.o \in {"++", "--"} /\ IsLvalue(e.a)
+      [] k = "load" -> e.w \in {8, 16, 32, 64} /\ ExprOk(e.a, st)
+      [] k = "sizeof" -> ExprOk(e.a, st)
+      [] k = "stmtexpr" -> AllStmtOk(e.body, st) /\ ExprOk(e.e, st)
+      [] k = "call" -> e.f \in KnownCalls(st) /\ \A i \in 1..Len(e.args) : (e.args[i].k = "str" \/ ExprOk(e.args[i], st))
+      [] OTHER -> FALSE
+
+StmtOk(s, st) ==
+    LET k == s.k IN
+    CASE k = "decl" -> TypeOk(s.t) /\ (s.init.k = "none" \/ ExprOk(s.init, st))
+      [] k = "expr" -> ExprOk(s.e, st)
+      [] k \in {"empty", "nop", "cancel"} -> TRUE
+      [] k = "block" -> AllStmtOk(s.b, st)
+      [] k = "if" -> ExprOk(s.c, st) /\ AllStmtOk(s.t, st) /\ AllStmtOk(s.e, st)
+      [] k = "for" -> (s.init.k = "none" \/ StmtOk(s.init, st)) /\ (s.c.k = "none" \/ ExprOk(s.c, st))
+                      /\ (s.step.k = "none" \/ ExprOk(s.step, st)) /\ AllStmtOk(s.body, st)
+      [] k = "return" -> s.e.k = "none" \/ ExprOk(s.e, st)
+      [] k = "store" -> s.w \in {8, 16, 32, 64} /\ ExprOk(s.a, st) /\ ExprOk(s.v, st)
+      [] k = "jump" -> ExprOk(s.a, st)
+      [] OTHER -> FALSE
+
+InDialect(body, st) == AllStmtOk(body, st)
 =============================================================================
